@@ -270,10 +270,26 @@ def link_pool():
     pool.append({'name': 'remove-versioned', 'nodes': [node('<BB', lt), node('BB', num(0)), node('>BB', gt)], 'edges': [['<BB', 'BB'], ['BB', '>BB']], 'inters': [],
                  'removes': [removal('angles', ['<BB', 'BB', '>BB'], meta=[pred('version', 'eq', '#num:1')]),
                              removal('angles', ['<BB', 'BB', '>BB'], atom_attrs=[[], [pred('mark', 'notdef', 'y')], []])]})
+    # ---- links of ONE atom still have conditions that look outside the placement (non-edges) or at alternatives (patterns)
+    pool.append({'name': 'single-non-edge', 'nodes': [node('BB', num(0))], 'edges': [],
+                 'nonedges': [{'from': 'BB', 'order': 1, 'preds': [pred('atomname', 'eq', 'BB')], 'mods': dict(R.ABSENT)}],
+                 'inters': [inter('position_restraints', ['BB'], P(3, 'chain-end'))], 'replaces': [{'key': 'BB', 'attr': 'atype', 'value': 'Qd'}]})
+    pool.append({'name': 'single-pattern', 'nodes': [node('SC1', num(0))], 'edges': [],
+                 'patterns': [[{'key': 'SC1', 'preds': [pred('resname', 'eq', 'CYS')], 'mods': dict(R.ABSENT)}],
+                              [{'key': 'SC1', 'preds': [pred('cgsecstruct', 'eq', 'H')], 'mods': dict(R.ABSENT)}]],
+                 'inters': [inter('position_restraints', ['SC1'], P(4, 'pattern'))]})
+    # ---- a link renames residues to a name that does not occur in the input; a later link selects on the new name
+    pool.append({'name': 'rename-residue', 'nodes': [node('BB', num(0), pred('cgsecstruct', 'in', 'C', 'E')), node('+BB', num(1))],
+                 'edges': [['BB', '+BB']], 'replaces': [{'key': 'BB', 'attr': 'resname', 'value': 'GLX'}], 'inters': []})
+    pool.append({'name': 'on-renamed', 'nodes': [node('BB', num(0), pred('resname', 'eq', 'GLX')), node('+BB', num(1))], 'edges': [['BB', '+BB']],
+                 'inters': [inter('bonds', ['BB', '+BB'], P(1, 0.36, 'glx'), 5)]})
+    pool.append({'name': 'on-renamed-choice', 'nodes': [node('BB', num(0), pred('resname', 'in', 'GLX', 'XXX'))], 'edges': [],
+                 'inters': [inter('position_restraints', ['BB'], P(5, 'glx'))]})
     return pool
 
 
 THEMES = [
+    ['rename-residue', 'on-renamed', 'on-renamed-choice', 'rename-residue', 'single-non-edge', 'single-pattern'],
     ['bb-bond', 'bb-bond-helix', 'remove', 'remove-atom-attrs', 'remove-meta', 'remove-meta-choice-params', 'remove-meta-notdef', 'mods-str'],
     ['angle-order', 'angle-arrows', 'angle-geo', 'non-edge', 'remove-versioned', 'angle-geo-formatted'],
     ['mods-empty-replace', 'mods-list', 'mods-list-repeated', 'mods-str', 'mods-choice', 'mods-non-edge', 'mods-pattern', 'choice', 'pattern-null', 'notdef'],
